@@ -91,6 +91,9 @@ def gen_scenarios(spec, rng, n):
         if "grpc" not in tr:
             client = "rest"
         nact = 1 if client != "async" else rng.choice([1, 2, 3])
+        threads = client != "async" and rng.random() < 0.2     # REAL caller threads sharing one sync/REST client
+        if threads:
+            nact = rng.choice([2, 2, 3])
         actors = [{"start": 0.0 if a == 0 else rng.choice([0.0, 0.3, 2.0]), "ops": []} for a in range(nact)]
         nops = rng.randint(1, 2) if nact == 1 else nact
         for j in range(nops):
@@ -114,6 +117,9 @@ def gen_scenarios(spec, rng, n):
             actors[j % nact]["ops"].append(op)
         sc = {"client": client, "actors": [a for a in actors if a["ops"]],
               "jitter_default": rng.choice([1.0, 1.0, 0.5, 0.75, 0.25])}
+        if threads and len(sc["actors"]) > 1:
+            sc["threads"] = True
+            sc["sched_seed"] = rng.randrange(2 ** 32)
         if client == "async" and len(sc["actors"]) > 1 and rng.random() < 0.25:
             # fault: one caller's task is cancelled while its future (or another caller's) is polling
             sc["cancels"] = [{"actor": rng.randrange(len(sc["actors"])), "at": rng.choice([0.0, 0.5, 1.5, 4.0, 12.0, 40.0])}]
